@@ -52,7 +52,8 @@ class ProjectGen:
         self.ident = ident
         # "marks": macros may contain Position literals, nested calls only across files;
         # "nest": nested calls also inside a file, no Position literal in any macro (the pinned tree hangs otherwise)
-        self.mode = mode or rnd.choice(["marks", "nest", "nest", "flat"])
+        # "nest_marks": both (hung the pinned tree: macro_posmark_nested_hang, repaired by /repo commit 1dfd06a)
+        self.mode = mode or rnd.choice(["marks", "nest", "nest", "flat", "nest_marks"])
         self.stats: dict[str, int] = {}
 
     def hit(self, k: str, n: int = 1) -> None:
@@ -80,7 +81,7 @@ class ProjectGen:
         macro_home: dict[str, str] = {}
         order: list[tuple[str, dict]] = []    # (file, macro) in creation order: callees first
         n_macro = 0
-        body_cfg = Cfg(max_depth=2, max_stmts=3, switches=self.cfg.switches, loops=self.cfg.loops, pos_marks=(self.mode == "marks"),
+        body_cfg = Cfg(max_depth=2, max_stmts=3, switches=self.cfg.switches, loops=self.cfg.loops, pos_marks=(self.mode in ("marks", "nest_marks")),
                        strings_nl=self.cfg.strings_nl)
         bg = MacroBodyGen(r, body_cfg)
         # libraries last-to-first so that callees exist
@@ -93,14 +94,16 @@ class ProjectGen:
                 n_macro += 1
                 extra = ["$q"] if r.random() < 0.4 else []
                 m = {"name": f"m{n_macro}_{r.choice(['a', 'Bx', 'c_1'])}", "params": PATH_PARAMS + extra, "body": bg.body()}
-                if self.mode != "marks":
+                if self.mode not in ("marks", "nest_marks"):
                     strip_pos(m["body"])
                 if extra:
                     self.use_param(m["body"], "$q")
                 mk.block(m["body"], True)
                 # nested calls
-                local = list(ast["macros"]) if self.mode == "nest" else []
-                cands = [c for c in vis + local if self.depth(c, files, macro_home) < marked.MAX_DEPTH - 1]
+                local = list(ast["macros"]) if self.mode in ("nest", "nest_marks") else []
+                direct = [m2 for g2 in imports_of[f] for m2 in files[g2]["macros"]]
+                pool_ = (direct + local) if (direct + local) and r.random() < 0.8 else (vis + local)
+                cands = [c for c in pool_ if self.depth(c, files, macro_home) < marked.MAX_DEPTH - 1]
                 if cands and r.random() < 0.6:
                     for _k in range(r.choice([1, 1, 2])):
                         callee = r.choice(cands)
@@ -135,9 +138,12 @@ class ProjectGen:
         if visible and bodies:
             for _ in range(r.choice([1, 2, 2, 3, 4])):
                 callee = r.choice(visible)
+                near = [m for m in visible if macro_home[m["name"]] == main or macro_home[m["name"]] in imports_of[main]]
+                if near and r.random() < 0.8:
+                    callee = r.choice(near)
                 blk = r.choice(all_blocks(r.choice(bodies)))
                 blk.insert(r.randint(0, len(blk)), make_call(mk, callee["name"], False, self.extra_args(callee, False)))
-                self.hit("call")
+                self.hit("macro_call")
                 home = macro_home[callee["name"]]
                 if home != main and home not in imports_of[main]:
                     self.hit("call_of_transitively_imported_macro")
@@ -194,9 +200,9 @@ class ProjectGen:
             return [{"k": "int", "v": self.r.randint(0, 999)}]
         if c < 0.8:
             return [{"k": "id", "v": self.r.choice(["ACTOR_PLAYER", "K", "DIR_DOWN"])}]
-        if c < 0.9 and in_macro:
+        if in_macro:
             return [{"k": "var", "v": "$p3"}]
-        return [{"k": "str", "v": "arg", "quote": '"'}]
+        return [{"k": "int", "v": self.r.randint(0, 999)}]
 
     def use_param(self, body: list[dict], p: str) -> None:
         ops = [s for blk in all_blocks(body) for s in blk if s["t"] == "op"]
